@@ -92,13 +92,13 @@ pub fn fast_unslice(s: &[W]) -> [[u8; 16]; NB] {
     o
 }
 
-//@ harness name=fx_bitslice prop=C02,C03,C04,C17,C20 tier=quick bits=256 est=20 desc="L(D): bitslice(b0, b1) == model placement (bit p of byte (r,c) of block b at word p, bit 8r+2c+b) and inv_bitslice(bitslice(x)) == x; all 2 x 128-bit blocks"
-//@ harness name=fx_inv_bitslice prop=C02,C03,C04,C17,C20 tier=quick bits=256 est=20 desc="L(D): inv_bitslice(s) == model un-placement and bitslice(inv_bitslice(s)) == s; every 256-bit state"
+//@ harness name=fx_bitslice prop=C02,C03,C04,C17,C20 tier=quick bits=256 est=25 desc="L(D): bitslice(b0, b1) == model placement (bit p of byte (r,c) of block b at word p, bit 8r+2c+b) and inv_bitslice(bitslice(x)) == x; all 2 x 128-bit blocks"
+//@ harness name=fx_inv_bitslice prop=C02,C03,C04,C17,C20 tier=quick bits=256 est=25 desc="L(D): inv_bitslice(s) == model un-placement and bitslice(inv_bitslice(s)) == s; every 256-bit state"
 //@ harness name=fx_sub_bytes prop=C02,C03,C04,C17,C20 tier=quick bits=256 est=30 desc="L(D): sub_bytes == FIPS S-box XOR 0x63 on each of the 32 byte lanes, sub_bytes_nots == XOR 0x63 per byte, nots(sub_bytes) == SubBytes; every 256-bit state (lane independence included)"
-//@ harness name=fx_inv_sub_bytes prop=C02,C03,C04,C17,C20 tier=quick bits=256 est=20 desc="L(D): inv_sub_bytes(x) == FIPS inverse S-box of (x XOR 0x63) on each of the 32 byte lanes; every 256-bit state"
-//@ harness name=fx_shift_rows prop=C02,C03,C04,C20 tier=quick bits=512 est=25 desc="L(D): shift_rows_k / inv_shift_rows_k == ShiftRows^k / InvShiftRows^k on each block (k = 1, 2, 3 as compiled), add_round_key == lane-wise XOR; every state"
-//@ harness name=fx_mix_columns prop=C02,C03,C04,C17,C20 tier=quick bits=256 est=20 desc="L1(D): mix_columns_k == bitslice o (Kaesper-Schwabe byte form mc_ks(., k) on each block) o inv_bitslice, k = 0..3 (0, 1 in compact form); every 256-bit state"
-//@ harness name=fx_inv_mix_columns prop=C02,C03,C04,C17,C20 tier=quick bits=256 est=20 desc="L1(D): inv_mix_columns_k == bitslice o (byte form imc_ks(., k) on each block) o inv_bitslice, k = 0..3 (0, 1 compact); every 256-bit state"
+//@ harness name=fx_inv_sub_bytes prop=C02,C03,C04,C17,C20 tier=quick bits=256 est=25 desc="L(D): inv_sub_bytes(x) == FIPS inverse S-box of (x XOR 0x63) on each of the 32 byte lanes; every 256-bit state"
+//@ harness name=fx_shift_rows prop=C02,C03,C04,C20 tier=quick bits=512 est=40 desc="L(D): shift_rows_k / inv_shift_rows_k == ShiftRows^k / InvShiftRows^k on each block (k = 1, 2, 3 as compiled), add_round_key == lane-wise XOR; every state"
+//@ harness name=fx_mix_columns prop=C02,C03,C04,C17,C20 tier=quick bits=256 est=25 desc="L1(D): mix_columns_k == bitslice o (Kaesper-Schwabe byte form mc_ks(., k) on each block) o inv_bitslice, k = 0..3 (0, 1 in compact form); every 256-bit state"
+//@ harness name=fx_inv_mix_columns prop=C02,C03,C04,C17,C20 tier=quick bits=256 est=30 desc="L1(D): inv_mix_columns_k == bitslice o (byte form imc_ks(., k) on each block) o inv_bitslice, k = 0..3 (0, 1 compact); every 256-bit state"
 //@ harness name=fx_mc_model prop=C02,C03,C04,C17,C20 tier=quick bits=128 est=20 desc="L2(D, byte level): mc_ks(x, 0) == FIPS MixColumns(x) and mc_ks(x, k) == InvShiftRows^k(mc_ks(ShiftRows^k(x), 0)), k = 1..3; all 2^128 blocks -- hence mix_columns_k == ShiftRows^-k o MixColumns o ShiftRows^k"
 //@ harness name=fx_imc_model prop=C02,C03,C04,C17,C20 tier=quick bits=128 est=30 desc="L2(D, byte level): imc_ks(x, 0) == FIPS InvMixColumns(x) and imc_ks(x, k) == InvShiftRows^k(imc_ks(ShiftRows^k(x), 0)), k = 1..3; all 2^128 blocks -- hence inv_mix_columns_k == ShiftRows^-k o InvMixColumns o ShiftRows^k"
 include!("/verif/harness/aes/soft_inner_body.rs");
